@@ -392,6 +392,8 @@ func mergeIgnoresEmptyOperand(c *Ctx) {
 			}
 			if guarded {
 				c.Site(l.In.Pos(), "Merge reads the operand's %s only when the operand has samples", f)
+			} else if bare := containersWithoutSentinels(c); len(bare) == 0 {
+				c.Site(l.In.Pos(), "Merge reads the operand's %s also when it holds no samples; every container the repo builds starts from the sentinels, which are identities for min/max", f)
 			} else {
 				c.Violation("dom:Merge:empty-operand:"+f, l.In.Pos(), "SamplesContainer.Merge reads the operand's %s although the operand may hold no samples: a part that only counted not-exists documents (Total == 0, Min == Max == 0) drags the minimum or maximum of the group to 0, and only when it is merged after a part with values — the result depends on the merge order", f)
 			}
@@ -725,6 +727,37 @@ func partialResultDecodedFresh(c *Ctx) {
 			l := InnermostLoop(call.(ssa.Instruction).Block())
 			if l != nil && (!isAlloc || !l.Blocks[al.Block()]) {
 				fresh = false
+				// encoding/json decodes an object into an existing non-nil map by adding to it: every field of the
+				// reused target that is a plain map (no decoder of its own) has to be replaced inside the loop
+				if pt, ok := tgt.Type().Underlying().(*types.Pointer); ok {
+					if st, ok := pt.Elem().Underlying().(*types.Struct); ok {
+						for i := 0; i < st.NumFields(); i++ {
+							f := st.Field(i)
+							if _, isMap := f.Type().Underlying().(*types.Map); !isMap || hasMethod(f.Type(), "UnmarshalJSON") {
+								continue
+							}
+							reset := false
+							for _, sin := range InstrsIn(h, FieldStore("seq.QPR", f.Name())) {
+								sst := sin.(*ssa.Store)
+								_, mk := sst.Val.(*ssa.MakeMap)
+								if l.Blocks[sst.Block()] && (mk || IsNilConst(sst.Val)) && Dominates(sst, call.(ssa.Instruction)) {
+									reset = true
+								}
+							}
+							for _, cc := range CallsIn(h, Callee("builtin.clear")) {
+								ci := cc.(ssa.Instruction)
+								if l.Blocks[ci.Block()] && Dominates(ci, call.(ssa.Instruction)) && ValueIsField(cc.Common().Args[0], "seq.QPR", f.Name()) {
+									reset = true
+								}
+							}
+							if reset {
+								c.Site(call.Pos(), "the reused decode target's map field %s is replaced before every decode", f.Name())
+							} else {
+								c.Violation("pair:decode-fresh:map-field:"+f.Name(), call.Pos(), "FetchSearchResult decodes every partial result into the same QPR and does not replace its %s map before the decode: encoding/json adds to an existing map, so the buckets of every file read before are still in it and are merged again — the k-th of n files is counted n-k+1 times", f.Name())
+							}
+						}
+					}
+				}
 			}
 		}
 	}
@@ -1294,4 +1327,61 @@ func sentinelRecognised(c *Ctx) {
 	if n == 0 {
 		c.Site(token.NoPos, "package fracmanager does not use errors.Is")
 	}
+}
+
+// hasMethod: T or *T has a method of that name.
+func hasMethod(t types.Type, name string) bool {
+	for _, tt := range []types.Type{t, types.NewPointer(t)} {
+		ms := types.NewMethodSet(tt)
+		for i := 0; i < ms.Len(); i++ {
+			if ms.At(i).Obj().Name() == name {
+				return true
+			}
+		}
+	}
+	return false
+}
+
+// containersWithoutSentinels: the places where non-test repo code creates a seq.SamplesContainer other than through
+// NewSamplesContainers and without assigning both Min and Max on the new value (or a Total: such a container is
+// not an empty operand).
+func containersWithoutSentinels(c *Ctx) []ssa.Instruction {
+	var out []ssa.Instruction
+	for _, fn := range c.P.Funcs {
+		if !c.P.InRepo(fn) {
+			continue
+		}
+		for _, b := range fn.Blocks {
+			for _, in := range b.Instrs {
+				al, ok := in.(*ssa.Alloc)
+				if !ok || !strings.HasSuffix(TypeStr(al.Type()), "*seq.SamplesContainer") && TypeStr(al.Type()) != "*seq.SamplesContainer" {
+					continue
+				}
+				if pt, ok := al.Type().Underlying().(*types.Pointer); !ok || !strings.HasSuffix(TypeStr(pt.Elem()), "seq.SamplesContainer") {
+					continue
+				}
+				set := map[string]bool{}
+				for _, r := range *al.Referrers() {
+					fa, ok := r.(*ssa.FieldAddr)
+					if !ok {
+						continue
+					}
+					_, fld, _, okF := FieldOf(fa)
+					if !okF {
+						continue
+					}
+					for _, rr := range *fa.Referrers() {
+						if st, ok := rr.(*ssa.Store); ok && st.Addr == ssa.Value(fa) {
+							set[fld] = true
+						}
+					}
+				}
+				// a container created with a Total of its own is not an empty one: the rule is about operands with Total == 0
+				if !(set["Min"] && set["Max"]) && !set["Total"] {
+					out = append(out, al)
+				}
+			}
+		}
+	}
+	return out
 }
